@@ -63,15 +63,15 @@ func fileReader(doc string) io.Reader {
 		return nil
 	}
 	readerFilesMu.Lock()
-	readerFiles = append(readerFiles, f)
-	n := len(readerFiles)
-	readerFilesMu.Unlock()
-	if n > 400 {
-		closeReaderFiles() // a case that makes very many calls: the earlier calls have long returned
-		readerFilesMu.Lock()
-		readerFiles = append(readerFiles, f)
-		readerFilesMu.Unlock()
+	if len(readerFiles) >= 400 {
+		// a case that makes very many calls: the calls that got the OLDEST files have long returned
+		for _, old := range readerFiles[:200] {
+			old.Close()
+		}
+		readerFiles = append(readerFiles[:0], readerFiles[200:]...)
 	}
+	readerFiles = append(readerFiles, f)
+	readerFilesMu.Unlock()
 	return f
 }
 
